@@ -19,6 +19,11 @@ EndToks == { TokEnd(p, m) : p \in Pads, m \in Modes }
 TokADV   == { TokByte(b) : b \in AdvBytes } \cup {TokStart, TokEsc4} \cup EndToks
 FirstADV == {TokStart}
 
+\* RAWCRC: from just after START: data bytes, end markers, zeros, half escapes and the bare checksum token - the
+\* adversary completes *any* reading in which the decoder compares a checksum (C02 beyond well-formed end sequences)
+TokRAWCRC   == { TokByte(b) : b \in {27, 26, 0, 85} } \cup {TokEsc4, TokCrc}
+FirstRAWCRC == {TokStart}
+
 \* HIST: ADV plus finalize / reset anywhere, from a new decoder
 TokHIST   == TokADV \cup {TokFin, TokRst}
 FirstHIST == TokHIST
